@@ -26,7 +26,14 @@ Definition tight_conf_index (jpeg : bool) (level : Z) : Z :=
 Definition conf_field (conf k : Z) : option Z :=
   if (conf <? 0) || (k <? 0) then None else nth_error c_tightConf (Z.to_nat (conf * 6 + k)).
 
-(* Pack24 on the little-endian host *)
+(* Pack24 on the little-endian host.  RESTRICTION (stated, not modelled): the server format is little
+   endian (serverFormat.bigEndian must equal the host's byte order, the library reads the framebuffer
+   natively; the check runs on a little-endian host) - there is no tp_sbe.  Padding bits: the model
+   works on the pixels the translation step hands to the encoder (script line "tr").  FastFillPalette
+   masks the framebuffer pixels with the server's colour masks only when it translates (mask = ~0 with
+   rfbTranslateNone); translated pixels have no server padding left, an untranslated client gets the raw
+   values - both are what "tr" holds.  The generator sets padding bits in the framebuffer in a third of the
+   cases (dimension "pad"), so both branches are driven on the implementation's side and compared. *)
 Definition tpixel_bytes (p : tight_params) (pix : Z) : list Z :=
   if tp_pack24 p then
     let sh := fun s => if tp_be p then 24 - s else s in
@@ -184,7 +191,9 @@ Definition send_tight (p : tight_params) (x y w h : nat) (scr : grid) : res (lis
                      | None => Err
                      end) pieces).
 
-(* cl->tightUsePixelFormat24 (SendRectEncodingTight) *)
-Definition tight_pack24 (depth rmax gmax bmax : Z) : bool :=
-  (depth =? 24) && (rmax =? 255) && (gmax =? 255) && (bmax =? 255).
-
+(* cl->tightUsePixelFormat24 (SendRectEncodingTight): the unchanged code tests only depth == 24 and the
+   three maxima (strict = false); strict = true is the variant that also requires 32 bits per pixel
+   and true colour, i.e. the TPIXEL condition of the specification (finding F7, notes/fix_C01_3.diff) *)
+Definition tight_pack24 (strict : bool) (bpp depth tc rmax gmax bmax : Z) : bool :=
+  (depth =? 24) && (rmax =? 255) && (gmax =? 255) && (bmax =? 255) &&
+  (if strict then (bpp =? 32) && negb (tc =? 0) else true).
